@@ -298,13 +298,24 @@ class _VersionIndependentUnmarshaller:
         if n == 0:
             return long(0) if self.has_long_type else 0
         size = abs(n)
-        d = long(0)
+        # Eight 15-bit digits are exactly 15 bytes. Packing groups of digits
+        # into bytes and converting once is linear in the number of digits;
+        # adding one shifted digit at a time is quadratic.
+        packed = []
+        group, group_bits = 0, 0
         for j in range(0, size):
             md = int(unpack("<h", self.fp.read(2))[0])
-            # This operation and turn "d" from a long back
-            # into an int.
-            d += md << j * 15
-            d = long(d)
+            group += md << group_bits
+            group_bits += 15
+            if group_bits == 120:
+                packed.append((group & ((1 << 120) - 1)).to_bytes(15, "little"))
+                # A (corrupt) negative digit carries into the next group.
+                group >>= 120
+                group_bits = 0
+        d = int.from_bytes(b"".join(packed), "little")
+        if group_bits or group:
+            d += group << (len(packed) * 120)
+        d = long(d)
         if n < 0:
             d = long(d * -1)
         if not self.has_long_type:
@@ -430,9 +441,12 @@ class _VersionIndependentUnmarshaller:
     def t_tuple(self, save_ref, bytes_for_s=False):
         tuplesize = unpack("<i", self.fp.read(4))[0]
         ret, i = self.r_ref_reserve(tuple(), save_ref)
+        # Collect in a list: repeated tuple concatenation is quadratic.
+        items = []
         while tuplesize > 0:
-            ret += (self.r_object(bytes_for_s=bytes_for_s),)
+            items.append(self.r_object(bytes_for_s=bytes_for_s))
             tuplesize -= 1
+        ret = tuple(items)
         return self.r_ref_insert(ret, i)
 
     def t_list(self, save_ref, bytes_for_s=False):
@@ -447,18 +461,20 @@ class _VersionIndependentUnmarshaller:
     def t_frozenset(self, save_ref, bytes_for_s=False):
         setsize = unpack("<i", self.fp.read(4))[0]
         ret, i = self.r_ref_reserve(tuple(), save_ref)
+        items = []
         while setsize > 0:
-            ret += (self.r_object(bytes_for_s=bytes_for_s),)
+            items.append(self.r_object(bytes_for_s=bytes_for_s))
             setsize -= 1
-        return self.r_ref_insert(frozenset(ret), i)
+        return self.r_ref_insert(frozenset(items), i)
 
     def t_set(self, save_ref, bytes_for_s=False):
         setsize = unpack("<i", self.fp.read(4))[0]
         ret, i = self.r_ref_reserve(tuple(), save_ref)
+        items = []
         while setsize > 0:
-            ret += (self.r_object(bytes_for_s=bytes_for_s),)
+            items.append(self.r_object(bytes_for_s=bytes_for_s))
             setsize -= 1
-        return self.r_ref_insert(set(ret), i)
+        return self.r_ref_insert(set(items), i)
 
     def t_dict(self, save_ref, bytes_for_s=False):
         ret = self.r_ref(dict(), save_ref)
